@@ -611,11 +611,12 @@ theorem argv_plain (macros : Option (List (Bytes × Bytes))) (ml : MatchList) (i
 
 open Mdsort.Proofs.World (Calls All bind_eq pure_eq call_bind ret_bind call_bind')
 
-/-- The environment `processMessage` evaluates a message in. -/
+/-- The environment `processMessage` evaluates a message in (its three oracle fields are not used: `evalP` asks the
+operating system). -/
 def msgEnv (env : PEnv) (orc : EvalOracles) (path : Bytes) : Env :=
   { rx := orc.rx, command := fun _ => -1, isDir := fun _ => false, now := env.now,
     strptime := orc.strptime, zoneName := orc.zoneName, fileTime := fun _ => none,
-    dryrun := env.dryrun, path := path }
+    timeFormat := orc.timeFormat, dryrun := env.dryrun, path := path }
 
 def IsClose (c : Call) : Prop := ∃ fd, c = .close fd
 
@@ -703,47 +704,7 @@ theorem all_messageParseP (d : Handle) (dir name content : Bytes) :
       · exact all_call fun _ => all_ret (fun ms h => by cases h)
   · exact all_ret (fun ms h => by cases h)
 
-/-- `processMessage` is the parse phase followed by a continuation which, when evaluation matches
-and interpolation fails, only closes the message's descriptor and reports an error. -/
-theorem processMessage_interp_error (env : PEnv) (orc : EvalOracles) (expr : Expr) (md : Maildir) (name : Bytes)
-    (st : MainSt) (d : Handle) (content p n : Bytes) (mf : MFlags) (est : St)
-    (hd : md.dirH = some d) (hf : st.files.get md.path name = some content)
-    (hp : pathjoin PATH_MAX md.path name = some p) (hn : strlcpyFits NAME_MAX1 name = some n)
-    (hmf : flagsParse n = some mf)
-    (hev : eval (msgEnv env orc p) (parseMessage content) expr 0 (parseMessage content) { ml := [], flags := mf }
-      = (.match, est))
-    (hint : matchesInterpolate (msgEnv env orc p) est.ml
-      (partMsg (parseMessage content) ((getAttachments (parseMessage content)).getD [])) = none) :
-    ∃ K : Option MsgSt → Prog (MainSt × Maildir),
-      processMessage env orc expr md name st = (messageParseP d md.path name content).bind K ∧
-      ∀ pm, ParsedFrom md.path name content pm →
-        Calls IsClose (K pm) ∧ All (fun r => r = ({ st with error := true }, md)) (K pm) := by
-  refine ⟨?K, ?h1, ?h2⟩
-  case h1 =>
-    unfold processMessage
-    simp only [hd, hf]
-    rfl
-  case h2 =>
-    intro pm hpm
-    cases pm with
-    | none => exact ⟨calls_ret _, rfl⟩
-    | some ms =>
-      obtain ⟨p', n', mf', hp', hn', hmf', h1, h2, h3, h4⟩ := hpm ms rfl
-      rw [hp] at hp'; cases hp'
-      rw [hn] at hn'; cases hn'
-      rw [hmf] at hmf'; cases hmf'
-      obtain ⟨nm, pth, fd, msg, parts, flags, loc, cont⟩ := ms
-      simp only at h1 h2 h3 h4
-      subst h1 h2 h3 h4
-      unfold msgEnv at hev hint
-      simp only [hev, hint]
-      cases fd with
-      | none => exact ⟨calls_ret _, rfl⟩
-      | some h =>
-        simp only [bind_eq, pure_eq, call_bind, ret_bind, call_bind']
-        exact ⟨calls_call ⟨h, rfl⟩ fun _ => calls_ret _, fun _ => rfl⟩
-
-/-! ### the same, on runs against arbitrary results -/
+/-! ### runs against arbitrary results -/
 
 theorem calls_runOracle_mem {α} {Q : Call → Prop} {p : Prog α} (h : Calls Q p) (orc : Nat → Call → Res) :
     ∀ (i : Nat) (tr : List (Call × Res)), ∀ x ∈ (runOracle orc p i tr).2, x ∈ tr ∨ Q x.1 := by
@@ -765,79 +726,6 @@ theorem all_runOracle_val {α} {P : α → Prop} {p : Prog α} (h : All P p) (or
   induction p with
   | ret a => intro i tr; exact h
   | call c k ih => intro i tr; exact ih _ (h _) _ _
-
-/-- Whatever the calls return: when the rules match and interpolation fails, the run of
-`processMessage` is the run of the parse phase followed by `close` calls only, every call is one
-of `openat(O_RDONLY)`, `read`, `close`, and the outcome is "error", nothing else changed. -/
-theorem processMessage_interp_error_run (env : PEnv) (orc : EvalOracles) (expr : Expr) (md : Maildir) (name : Bytes)
-    (st : MainSt) (d : Handle) (content p n : Bytes) (mf : MFlags) (est : St)
-    (hd : md.dirH = some d) (hf : st.files.get md.path name = some content)
-    (hp : pathjoin PATH_MAX md.path name = some p) (hn : strlcpyFits NAME_MAX1 name = some n)
-    (hmf : flagsParse n = some mf)
-    (hev : eval (msgEnv env orc p) (parseMessage content) expr 0 (parseMessage content) { ml := [], flags := mf }
-      = (.match, est))
-    (hint : matchesInterpolate (msgEnv env orc p) est.ml
-      (partMsg (parseMessage content) ((getAttachments (parseMessage content)).getD [])) = none)
-    (orcl : Nat → Call → Res) :
-    (runOracle orcl (processMessage env orc expr md name st) 0 []).1 = ({ st with error := true }, md) ∧
-    (∀ x ∈ (runOracle orcl (processMessage env orc expr md name st) 0 []).2,
-      ParseCall d x.1 ∧ x.1.mutating = false ∧ x.1 ≠ .fork) ∧
-    ∃ L, (runOracle orcl (processMessage env orc expr md name st) 0 []).2 =
-        (runOracle orcl (messageParseP d md.path name content) 0 []).2 ++ L ∧ ∀ x ∈ L, IsClose x.1 := by
-  obtain ⟨K, hK, hprop⟩ := processMessage_interp_error env orc expr md name st d content p n mf est hd hf hp hn hmf hev hint
-  have hall := all_messageParseP d md.path name content
-  have hcalls : Calls (ParseCall d) (processMessage env orc expr md name st) := by
-    rw [hK]
-    exact calls_bind_all (parse_messageParseP d md.path name content) hall
-      fun pm hpm => calls_mono (hprop pm hpm).1 fun c hc => .inr (.inr hc)
-  have hres : All (fun r => r = ({ st with error := true }, md)) (processMessage env orc expr md name st) := by
-    rw [hK]
-    exact all_bind_all hall fun pm hpm => (hprop pm hpm).2
-  refine ⟨all_runOracle_val hres orcl 0 [], ?_, ?_⟩
-  · intro x hx
-    rcases calls_runOracle_mem hcalls orcl 0 [] x hx with h | h
-    · simp at h
-    · exact ⟨h, h.quiet⟩
-  · rw [hK]
-    simp only [Own.runOracle_eq, Own.runO_bind, List.nil_append]
-    refine ⟨_, rfl, ?_⟩
-    intro x hx
-    have hpm : ParsedFrom md.path name content (Own.runO orcl (messageParseP d md.path name content) 0).1 := by
-      have := all_runOracle_val hall orcl 0 []
-      rwa [Own.runOracle_eq] at this
-    have := calls_runOracle_mem (hprop _ hpm).1 orcl (Own.runO orcl (messageParseP d md.path name content) 0).2.2 [] x
-      (by rw [Own.runOracle_eq]; simpa using hx)
-    rcases this with h | h
-    · simp at h
-    · exact h
-
-
-/-- The hypotheses of `processMessage_interp_error_run` in decidable form (no witness for the state
-after evaluation). -/
-theorem processMessage_interp_error_run' (env : PEnv) (orc : EvalOracles) (expr : Expr) (md : Maildir) (name : Bytes)
-    (st : MainSt) (d : Handle) (content p n : Bytes) (mf : MFlags)
-    (hd : md.dirH = some d) (hf : st.files.get md.path name = some content)
-    (hp : pathjoin PATH_MAX md.path name = some p) (hn : strlcpyFits NAME_MAX1 name = some n)
-    (hmf : flagsParse n = some mf)
-    (hev : (eval (msgEnv env orc p) (parseMessage content) expr 0 (parseMessage content) { ml := [], flags := mf }).1
-      = .match)
-    (hint : (matchesInterpolate (msgEnv env orc p)
-      (eval (msgEnv env orc p) (parseMessage content) expr 0 (parseMessage content) { ml := [], flags := mf }).2.ml
-      (partMsg (parseMessage content) ((getAttachments (parseMessage content)).getD []))).isNone = true)
-    (orcl : Nat → Call → Res) :
-    (runOracle orcl (processMessage env orc expr md name st) 0 []).1 = ({ st with error := true }, md) ∧
-    (∀ x ∈ (runOracle orcl (processMessage env orc expr md name st) 0 []).2,
-      ((∃ nm, x.1 = .openRd d nm) ∨ (∃ fd, x.1 = .read fd) ∨ ∃ fd, x.1 = .close fd) ∧
-        x.1.mutating = false ∧ x.1 ≠ .fork) ∧
-    ∃ L, (runOracle orcl (processMessage env orc expr md name st) 0 []).2 =
-        (runOracle orcl (messageParseP d md.path name content) 0 []).2 ++ L ∧ ∀ x ∈ L, ∃ fd, x.1 = .close fd := by
-  cases h : eval (msgEnv env orc p) (parseMessage content) expr 0 (parseMessage content) { ml := [], flags := mf } with
-  | mk tri est =>
-    rw [h] at hev hint
-    simp only at hev
-    subst hev
-    exact processMessage_interp_error_run env orc expr md name st d content p n mf est hd hf hp hn hmf h
-      (by simpa using hint) orcl
 
 /-! ## end to end: pattern, captures, back-reference -/
 
